@@ -276,6 +276,21 @@ func (f *frame) transIdent(name string, env *Env) TV {
 		return TV{T: "nil", S: "nil"}
 	}
 	if env.curParams {
+		// at a loop head the current value of a reassigned parameter is its
+		// header phi (bound in env.vars by headEnv)
+		if env.anchorBlock != nil && env.anchorIdx == 0 {
+			for _, in := range env.anchorBlock.Instrs {
+				phi, ok := in.(*ssa.Phi)
+				if !ok {
+					break
+				}
+				if phi.Comment == name {
+					if tv, ok := env.vars[name]; ok {
+						return tv
+					}
+				}
+			}
+		}
 		if tv, ok := f.localAt(name, env); ok {
 			return tv
 		}
